@@ -1,4 +1,92 @@
-/- Driver of the `gov` world (stub: to be written by the owner of this world). -/
+/-
+  Driver of the `gov` world: replays an ops file through `Mx.Gov.step` and prints one result
+  line per op line (byte-identical to harness/src/bin/w_gov.rs).  Import-free apart from
+  Core/Driver modules.
+-/
+import MxModel.Core.Governance
 import MxModel.Driver.Proto
 
-def main : IO Unit := Mx.Proto.mainLoop () (fun s _ => (s, none))
+open Mx Mx.Gov Mx.Proto
+
+namespace Mx.GovDriver
+
+def parseVote : String → Option Vote
+  | "up" => some .up
+  | "down" => some .down
+  | "veto" => some .veto
+  | "abstain" => some .abstain
+  | _ => none
+
+def parseCfg : String → Nat → Option CfgOp
+  | "minEnergy", x => some (.minEnergy x)
+  | "minFee", x => some (.minFee x)
+  | "quorum", x => some (.quorum x)
+  | "delay", x => some (.delay x)
+  | "period", x => some (.period x)
+  | "wpct", x => some (.wpct x)
+  | _, _ => none
+
+def parseOp : List String → Option Op
+  | ["propose", c, fee] => do pure (.propose (← c.toNat?) (← fee.toNat?))
+  | ["vote", c, id, v] => do pure (.vote (← c.toNat?) (← id.toNat?) (← parseVote v))
+  | ["cancel", c, id] => do pure (.cancel (← c.toNat?) (← id.toNat?))
+  | ["withdraw", c, id] => do pure (.withdraw (← c.toNat?) (← id.toNat?))
+  | ["cfg", k, x] => do pure (.cfg (← parseCfg k (← x.toNat?)))
+  | ["setEnergy", u, e] => do pure (.setEnergy (← u.toNat?) (← e.toNat?))
+  | ["setTotal", x] => do pure (.setTotal (← x.toNat?))
+  | ["claim", u] => do pure (.claim (← u.toNat?))
+  | ["advance", b] => do pure (.advance (← b.toNat?))
+  | _ => none   -- `bad …` lines: malformed calls, always rejected
+
+def showStatus : Status → String
+  | .none => "none"
+  | .pending => "pending"
+  | .active => "active"
+  | .defeated => "defeated"
+  | .vetoed => "vetoed"
+  | .succeeded => "succeeded"
+
+def showProposal (s : St) (i : Nat) (p : Proposal) : String :=
+  if p.cleared then s!"P{i + 1}=none" else
+  let voters := ";".intercalate (((List.range s.n).map (· + 1)).filter (· ∈ p.voters) |>.map toString)
+  s!"P{i + 1}={showStatus (s.status (i + 1))},{p.proposer},{p.fee},{p.minQuorum},{p.delay},{p.period}," ++
+  s!"{p.wpct},{p.totalQuorum},{p.start},{if p.withdrawn then 1 else 0},{p.up},{p.down},{p.veto}," ++
+  s!"{p.abstain},{p.quorum},v:{voters}"
+
+def showState (s : St) : String :=
+  let ps := (List.zip (List.range s.props.length) s.props).map fun (i, p) => " " ++ showProposal s i p
+  let us := (List.range s.n).map fun i => s!" u{i + 1}={s.wallet (i + 1)},{s.energy (i + 1)}"
+  s!"blk={s.block} cfg={s.minEnergy},{s.minFee},{s.quorumPct},{s.delay},{s.period},{s.wpct} " ++
+  s!"bal={s.bal} burned={s.burned} total={s.total} np={s.props.length}" ++
+  String.join ps ++ String.join us
+
+def initOf (ws : List String) : St :=
+  let g (k : String) (d : Nat) := (kvNat ws k).getD d
+  Gov.init (g "minEnergy" 0) (g "minFee" 0) (g "quorum" 4000) (g "delay" 1) (g "period" 14400)
+    (g "wpct" 5000) (g "users" 4) (10 ^ 33)
+
+def view (s : St) : List String → Option String
+  | ["status", id] => do pure (showStatus (s.status (← id.toNat?)))
+  | ["votes", id] => do
+      let p ← s.get? (← id.toNat?)
+      if p.cleared then none else
+      pure s!"{p.up} {p.down} {p.veto} {p.abstain} {p.quorum}"
+  | _ => none
+
+def handle (s : St) (line : String) : St × Option String :=
+  match words line with
+  | "W" :: rest => (initOf rest, some (" ".intercalate ("W" :: rest)))
+  | "O" :: n :: rest =>
+      match (parseOp rest).bind (step s) with
+      | some (s', o) => (s', some s!"R {n} ok {o.v1} {o.v2} {o.v3} | {showState s'}")
+      | none => (s, some s!"R {n} err")
+  | "Q" :: n :: rest =>
+      match view s rest with
+      | some v => (s, some s!"V {n} ok {v}")
+      | none => (s, some s!"V {n} err")
+  | _ => (s, none)
+
+end Mx.GovDriver
+
+def main : IO Unit :=
+  Mx.Proto.mainLoop (Mx.Gov.init 0 0 4000 1 14400 5000 0 0) Mx.GovDriver.handle
